@@ -83,6 +83,11 @@ def gear_pair_case(rng):
         c['helix'] = q('Angle', math.radians(rng.choice([0.0, rng.uniform(1, 60), rng.uniform(60, 89)])), rng, ru)
     c['dT'] = [q('Torque', rng.uniform(-50, 50), rng, ru), q('Torque', rng.uniform(-50, 50), rng, ru)]
     c['lT'] = [q('Torque', rng.uniform(-50, 50), rng, ru), q('Torque', rng.uniform(-50, 50), rng, ru)]
+    if rng.random() < 0.25:
+        kinds = {'module': 'Length', 'face_width': 'Length', 'elastic_modulus': 'Stress'}
+        if kind == 'helical':
+            kinds['helix_angle'] = 'Angle'
+        c['inplace'] = [[rng.randrange(2), a, rng.choice(list(SI[k].keys()))] for a, k in rng.sample(sorted(kinds.items()), rng.randint(1, 3))]
     if rng.random() < 0.3:
         # a previous life: the gear was mated with another gear and its force / stresses were computed, then the
         # relation is re-declared with the mate under test
@@ -128,6 +133,11 @@ def build_pair(c):
             except Exception:  # noqa: BLE001
                 pass
     add_gear_mating(gs[0], gs[1], 0.9)
+    # parameter objects re-expressed in place after construction / mating: same magnitudes, other units
+    for i, attr, unit in c.get('inplace', []):
+        q_ = getattr(gs[i], attr, None)
+        if q_ is not None and hasattr(q_, 'to'):
+            q_.to(unit, inplace=True)
     for i in (0, 1):
         gs[i].driving_torque = Q('Torque', c['dT'][i])
         gs[i].load_torque = Q('Torque', c['lT'][i])
@@ -139,6 +149,8 @@ def eval_pair(ctx, cases, lewis_tbl):
     for c in cases:
         ctx.case_done(c, nontrivial=True)
         ctx.count('pair ' + c['kind'] + (' (re-declared after an earlier mating)' if c.get('pre') else ''))
+        if c.get('inplace'):
+            ctx.count('pair with parameters converted in place after construction')
         try:
             gs = build_pair(c)
         except Exception as ex:  # noqa: BLE001
